@@ -1,21 +1,50 @@
 /-
   C02 (whole-history part)  Accepted bets are fully collateralised; house loss is bounded by its deposit.
+
+  FULL STATEMENT (FALSE of the code as it is — see `c02_counterexample_undercollateralised` below):
+
+      ∀ ops, let s := run (initState p bal h t) ops
+      ∀ b ∈ s.books, ∀ pt ∈ b.parts, ∀ o,
+        b.promised pt.idx o ≤ pt.liq + pt.actualProfit + b.otherStakes pt.idx o          -- what the Go monitor checks
+      and, at settlement, 0 ≤ pt.liq + pt.actualProfit                                     -- loss ≤ deposit
+
+  The doubled rounding carry of `CalculateBetAmountInt` can hand a participation a backing part with a NEGATIVE stake
+  (KF-C03-negative-part: `c03_counterexample_negative_part`, `c05_counterexample_halt`); such a part lowers the
+  participation's total stake while its exposure grows, and the inequality fails.
+
+  PROVED here (`…_partial`), for every history `ops` of the core slice from an empty chain — market add / update /
+  resolve, deposit, withdraw, wager, authz, bank, parameter changes, new blocks and the settling end-blocks, failing
+  messages and halting end-blocks included — under the GHOST hypothesis `NonNegParts (run … ops)`: "no backing part of
+  any bet in the final state has a negative stake". The hypothesis speaks about the execution, not about the code:
+  bets are only appended and their backing parts never change (`c02_nonneg_parts_monotone`), so it holds for the
+  final state iff it held at every wager of the history. EXCLUDED are exactly the histories in which some wager
+  produced a backing part with negative stake (KF-C03-negative-part). Nothing else is assumed: the multiplier bound
+  `0 < mult ≤ 1` comes from the ticket validation in `wagerO` (`multOk`), `odds > 1` from `wagerO`, a non-negative
+  liquidity from the bank transfer of the deposit, the withdrawal bound from `calcWithdrawal`/`withdrawable`.
+
+    c02_collateral_partial          the abstract bundle `IInv` of Properties/C02.lean holds for every participation of
+                                    every book (`ColSt`): exposures and stakes non-negative, the tracked worst-case
+                                    loss bounds the loss of every outcome of the current round and is attained,
+                                    max(0, worst-case loss) ≤ current-round liquidity ≤ liquidity, the loss of the
+                                    closed rounds on any outcome ≤ liquidity − current-round liquidity
+    c02_monitor_inequality_partial  promised winnings on o ≤ liquidity + stakes received on the other outcomes, and
+                                    (equivalently) promised winnings + stake on o ≤ liquidity + total stake, summed over
+                                    the current and all closed rounds — the inequality the Go-side monitor evaluates
+    c02_current_round_partial       the current-round facts in the fields of the stored records
+    c02_payout_nonneg_partial       house loss bounded by deposit (see there for what is assumed)
+
+  The invariant `ColInv` and its preservation live in SgeProofs/Lemmas/Collateral*.lean: `CExt` (updates that do not
+  touch the arithmetic), deposit = fresh item, withdrawal = `Item.withdraw`, one queue visit = `Item.fulfil` on the
+  visited participation (`col_visit_some`, threaded through `visit`/`loop` with the loop invariant `LInv` of
+  ObWager.lean), re-queue = `Item.requeue` (`requeue_col`), settlement only touches realised profit and flags.
 -/
-import SgeProofs.Lemmas.Collateral
+import SgeProofs.Lemmas.CollateralSums
 namespace Sge.Core
 open Sge Sge.Genesis
 
 -- ---------------------------------------------------------------------------------------------
 -- the full statement is FALSE of the code as it is
 
-/-- KNOWN FINDING (KF-C02-undercollateralised, a consequence of KF-C03-negative-part), proved on the model of the
-    code as it is. Minimum deposit 2, no house fee, threshold 0, a market with outcomes 11 and 12, six
-    participations with liquidity 5,2,2,2,2,1000. A wager of 22 (fee 1) at odds 10 on outcome 11 is backed by the
-    parts (stake, promised winnings) = (1,5), (0,2), (0,2), (−1,2), (−1,2), (22,176): the doubled rounding carry of
-    `CalculateBetAmountInt` gives participations 4 and 5 a NEGATIVE stake. A wager of 12 (fee 1) at odds 2 on
-    outcome 12 is then backed by participations 1..4 with (5,5), (2,2), (2,2), (2,2). Afterwards participation 4
-    has liquidity 2, has received −1 on outcome 11 and promised 2 on outcome 12: liquidity + stakes on the other
-    outcomes = 1 < 2 = promised winnings. Its tracked worst-case loss (3) exceeds its liquidity (2). -/
 def kf02Tk : Tk := { ok := true, kycIgnore := true, kycApproved := false, kycId := 0 }
 def kf02Pl (o : Nat) (ov : Int) : WagerPayload :=
   { market := 1, odds := o, oddsVal := some ⟨ov * PREC⟩, mult := ⟨PREC⟩, allOdds := [(11, ⟨PREC⟩), (12, ⟨PREC⟩)] }
@@ -27,6 +56,15 @@ def kf02Ops : List Op :=
   ([5, 2, 2, 2, 2, 1000].map fun (l : Int) => Op.deposit 7 kf02Tk 1 l 0) ++
   [.wager 8 kf02Tk 77 22 (kf02Pl 11 10), .wager 8 kf02Tk 78 12 (kf02Pl 12 2)]
 
+/-- KNOWN FINDING (KF-C02-undercollateralised, a consequence of KF-C03-negative-part), proved on the model of the
+    code as it is. Minimum deposit 2, no house fee, threshold 0, a market with outcomes 11 and 12, six
+    participations with liquidity 5,2,2,2,2,1000. A wager of 22 (fee 1) at odds 10 on outcome 11 is backed by the
+    parts (stake, promised winnings) = (1,5), (0,2), (0,2), (−1,2), (−1,2), (22,176): the doubled rounding carry of
+    `CalculateBetAmountInt` gives participations 4 and 5 a NEGATIVE stake. A wager of 12 (fee 1) at odds 2 on
+    outcome 12 is then backed by participations 1..4 with (5,5), (2,2), (2,2), (2,2). Afterwards participation 4
+    (not settled, no realised profit) has liquidity 2, has received −1 on outcome 11 and promised 2 on outcome 12:
+    liquidity + stakes on the other outcomes = 1 < 2 = promised winnings; its tracked worst-case loss (3) exceeds
+    its liquidity (2). The full statement of C02 is therefore FALSE of the code as it is. -/
 theorem c02_counterexample_undercollateralised :
     ((run kf02Init kf02Ops).bets.map (fun b => (b.odds, b.fulfs.map (fun f => (f.idx, f.bet, f.profit)))))
         = [(11, [(1, 1, 5), (2, 0, 2), (3, 0, 2), (4, -1, 2), (5, -1, 2), (6, 22, 176)]),
@@ -36,5 +74,104 @@ theorem c02_counterexample_undercollateralised :
       p.liq + p.actualProfit + b.otherStakes p.idx 12 < b.promised p.idx 12 ∧
       p.liq < p.crMaxLoss) := by
   decide +kernel
+
+-- ---------------------------------------------------------------------------------------------
+-- the part that holds: histories without a negative backing part
+
+/-- C02.i  (PARTIAL: histories in which some backing part has a negative stake — KF-C03-negative-part — are
+    excluded by the ghost hypothesis `NonNegParts` on the final state.) In every reachable state every
+    participation of every order book satisfies the invariant bundle `IInv` of Properties/C02.lean. -/
+theorem c02_collateral_partial (p : Params) (bal : List (Nat × Int)) (h t : Nat) (ops : List Op) :
+    let s := run (initState p bal h t) ops
+    NonNegParts s → ColSt s := by
+  intro s hnn
+  exact run_col _ ops (obInv_init p bal h t) (colSt_init p bal h t) hnn
+
+/-- C02.j  The ghost hypothesis is monotone along a history: bets are only appended and the backing parts of a
+    stored bet never change, so if no part is negative at the end, none was negative at any earlier state. -/
+theorem c02_nonneg_parts_monotone (p : Params) (bal : List (Nat × Int)) (h t : Nat) (ops later : List Op) :
+    NonNegParts (run (initState p bal h t) (ops ++ later)) → NonNegParts (run (initState p bal h t) ops) := by
+  intro hnn
+  rw [run_split] at hnn
+  exact (run_keepF _ later (run_obInv _ ops (obInv_init p bal h t))).nonneg hnn
+
+/-- C02.k  One operation keeps the bundle, provided no bet of the new state has a negative backing part (this only
+    matters for a wager: every other operation keeps the bundle unconditionally). -/
+theorem c02_collateral_step_partial (s : State) (op : Op) (hI : ObInv s) (hC : ColSt s)
+    (hnn : NonNegParts (step s op).1) : ColSt (step s op).1 :=
+  step_col s op hI hC hnn
+
+/-- C02.l  (PARTIAL, same exclusion.) The inequality the monitor evaluates: in every reachable state, for every
+    participation and every outcome `o`, the winnings promised on `o` over all rounds are covered by the liquidity
+    plus the stakes received on the other outcomes over all rounds; equivalently, what would be paid out to the
+    winners of `o` (promised winnings + their stakes) is covered by liquidity + total stake received. -/
+theorem c02_monitor_inequality_partial (p : Params) (bal : List (Nat × Int)) (h t : Nat) (ops : List Op) :
+    let s := run (initState p bal h t) ops
+    NonNegParts s → ∀ b ∈ s.books, ∀ pt ∈ b.parts, ∀ o : Nat,
+      b.promised pt.idx o ≤ pt.liq + b.otherStakes pt.idx o ∧
+      b.promised pt.idx o + b.stakeOn pt.idx o ≤ pt.liq + pt.totalBet := by
+  intro s hnn b hb pt hpt o
+  have hI : ObInv s := c10_invariant p bal h t ops
+  have hC := c02_collateral_partial p bal h t ops hnn b hb
+  have hq := hI.qinv b hb
+  have hg := Book.mem_getPart hq.s.sP hpt
+  have hcol := c02_collateral _ (hC pt.idx pt hg) o
+  rw [col_item_collateral] at hcol
+  obtain ⟨e1, e2⟩ := col_promised_eq b hq.s.sE pt.idx o
+  have e3 := col_totalBet_eq_allStakes hI b hb pt.idx pt hg
+  have e4 := col_stakes_split b pt.idx o
+  have hc2 : (b.colItem pt).liq = pt.liq := rfl
+  rw [hc2] at hcol
+  constructor <;> omega
+
+/-- C02.m  (PARTIAL, same exclusion.) The current round in the fields of the stored records: the current-round
+    liquidity lies between 0 and the liquidity and covers the tracked worst-case loss; every current exposure of
+    the participation has non-negative promised winnings and stake, its stake is part of the round's total stake,
+    and its loss (promised winnings + own stake − total stake of the round) is at most the tracked worst-case loss. -/
+theorem c02_current_round_partial (p : Params) (bal : List (Nat × Int)) (h t : Nat) (ops : List Op) :
+    let s := run (initState p bal h t) ops
+    NonNegParts s → ∀ b ∈ s.books, ∀ pt ∈ b.parts,
+      0 ≤ pt.crl ∧ pt.crl ≤ pt.liq ∧ pt.crMaxLoss ≤ pt.crl ∧
+      ∀ e ∈ b.pexps, e.idx = pt.idx →
+        0 ≤ e.exposure ∧ 0 ≤ e.bet ∧ e.bet ≤ pt.crTotalBet ∧ e.exposure + e.bet - pt.crTotalBet ≤ pt.crMaxLoss := by
+  intro s hnn b hb pt hpt
+  have hI : ObInv s := c10_invariant p bal h t ops
+  have hq := hI.qinv b hb
+  have hg := Book.mem_getPart hq.s.sP hpt
+  have hC := c02_collateral_partial p bal h t ops hnn b hb pt.idx pt hg
+  have hrng : 0 ≤ pt.crl ∧ pt.crl ≤ pt.liq := hC.rng
+  have hcap : max0 pt.crMaxLoss ≤ pt.crl := hC.cap
+  refine ⟨hrng.1, hrng.2, by unfold max0 at hcap; split at hcap <;> omega, ?_⟩
+  intro e he hei
+  have hge : b.getExp e.odds pt.idx = some e := by rw [← hei]; exact Book.mem_getExp hq.s.sE he
+  have hcur : b.curExp pt.idx e.odds = e := by unfold Book.curExp; rw [hge]
+  have h1 := hC.nonneg e.odds
+  have h2 := hC.others e.odds
+  have h3 := hC.ub e.odds
+  have e1 : ((b.colItem pt).es e.odds) = expoOf e := by
+    show expoOf (b.curExp pt.idx e.odds) = _; rw [hcur]
+  have e2 : (b.colItem pt).loss e.odds = e.exposure + e.bet - pt.crTotalBet := by
+    show (expoOf (b.curExp pt.idx e.odds)).exposure + (expoOf (b.curExp pt.idx e.odds)).bet - pt.crTotalBet = _
+    rw [hcur]; rfl
+  rw [e1] at h1 h2
+  rw [e2] at h3
+  exact ⟨h1.1, h1.2, h2, h3⟩
+
+-- ---------------------------------------------------------------------------------------------
+-- non-vacuity: the history of C10Sums (two deposits, three bets on two outcomes; the first bet exhausts
+-- participation 1, which is re-queued into round 2 with its round-1 exposures moved to history; declared result,
+-- settlement) has only non-negative backing parts, so the theorems above apply to it
+
+example : NonNegParts (run (initState c10Params [(1, 100000), (2, 100000), (3, 100000)] 1 0) c10Ops) ∧
+    (((run (initState c10Params [(1, 100000), (2, 100000), (3, 100000)] 1 0) c10Ops).books.map
+      (fun b => (b.parts.map (fun pt => (pt.idx, pt.liq, pt.crl, pt.totalBet)), b.hist.map (fun e => (e.odds, e.idx, e.round, e.exposure, e.bet)))))
+      == [([(1, 90, 45, 135), (2, 270, 270, 65)], [(11, 1, 1, 90, 45), (12, 1, 1, 90, 90)])]) = true := by
+  unfold NonNegParts
+  decide +kernel
+
+example : ∀ b ∈ c10Final.books, ∀ pt ∈ b.parts, ∀ o : Nat, b.promised pt.idx o ≤ pt.liq + b.otherStakes pt.idx o :=
+  fun b hb pt hpt o =>
+    (c02_monitor_inequality_partial c10Params [(1, 100000), (2, 100000), (3, 100000)] 1 0 c10Ops
+      (by unfold NonNegParts; decide +kernel) b hb pt hpt o).1
 
 end Sge.Core
